@@ -58,6 +58,7 @@ class TU:
         self.enumsigned = {}          # EnumDecl id -> bool
         self.typedef_enum = {}        # typedef name / enum name -> signed?
         self.typedefs = {}
+        self.statics = set()
         self.funcs = {}
         for n in ast.get("inner", []):
             k = n.get("kind")
@@ -67,6 +68,8 @@ class TU:
                 self._typedef(n)
             elif k == "FunctionDecl" and any(c.get("kind") == "CompoundStmt" for c in n.get("inner", [])):
                 self.funcs[n["name"]] = n
+                if n.get("storageClass") == "static":
+                    self.statics.add(n["name"])
 
     def _enum(self, n):
         cur = -1
@@ -133,7 +136,8 @@ def width_of(cty):
 
 
 UNOPS = {"-": "ONeg", "~": "OBNot"}
-BINOPS = {"+": "OAdd", "-": "OSub", "*": "OMul", "<<": "OShl", ">>": "OShr", "&": "OAnd", "|": "OOr", "^": "OXor"}
+BINOPS = {"+": "OAdd", "-": "OSub", "*": "OMul", "<<": "OShl", ">>": "OShr", "&": "OAnd", "|": "OOr", "^": "OXor",
+          "/": "ODiv", "%": "ORem"}
 CMPOPS = {"==": "CEq", "!=": "CNe", "<": "CLt", "<=": "CLe", ">": "CGt", ">=": "CGe"}
 VALUE_CASTS = {"NoOp", "BitCast", "NullToPointer", "IntegralCast", "IntegralToPointer", "PointerToIntegral"}
 LOOPS = {"ForStmt": 1, "WhileStmt": 2, "DoStmt": 3}
@@ -180,6 +184,17 @@ def sanitize(s):
     return s.replace("__", "_u_")
 
 
+def static_name(rel, name):
+    """table name of a `static` function: unique per translation unit"""
+    return "static_%s_%s" % (os.path.splitext(os.path.basename(rel))[0], name)
+
+
+def is_zero_literal(n):
+    while n.get("kind") in ("ParenExpr", "ImplicitCastExpr", "CStyleCastExpr"):
+        n = n["inner"][0]
+    return n.get("kind") == "IntegerLiteral" and int(n.get("value", "1")) == 0
+
+
 class FnTranslator:
     def __init__(self, tu, names, node):
         self.tu, self.names, self.node = tu, names, node
@@ -187,6 +202,7 @@ class FnTranslator:
         self.varnames = []
         self.params = []      # (name, cty, pointee_const)
         self.callees = []
+        self.static_callees = []
         for c in node.get("inner", []):
             if c.get("kind") == "ParmVarDecl":
                 self.vars[c["id"]] = len(self.varnames)
@@ -281,6 +297,9 @@ class FnTranslator:
                     self.fail(n, "pointer arithmetic")
                 return "(EBin %s %s %s %s)" % (BINOPS[op], self.tu.cty(n["type"]), self.expr(a), self.expr(b))
             self.fail(n, "binary " + str(op))
+        if k == "ConditionalOperator":
+            c, a, b = n["inner"]
+            return "(ECond %s %s %s)" % (self.expr(c), self.expr(a), self.expr(b))
         if k == "CallExpr":
             callee = n["inner"][0]
             while callee.get("kind") in ("ImplicitCastExpr", "ParenExpr"):
@@ -288,6 +307,9 @@ class FnTranslator:
             if callee.get("kind") != "DeclRefExpr" or callee["referencedDecl"]["kind"] != "FunctionDecl":
                 self.fail(n, "indirect call")
             name = callee["referencedDecl"]["name"]
+            if name in self.tu.statics:
+                self.static_callees.append(name)
+                name = static_name(self.tu.rel, name)
             self.callees.append(name)
             return "(ECall %s [%s])" % (self.names.fid(name), "; ".join(self.expr(a) for a in n["inner"][1:]))
         self.fail(n)
@@ -346,6 +368,12 @@ class FnTranslator:
                 else:
                     out.append("(SDecl %d (* %s *))" % (x, self.varnames[x]))
             return self.seq(out)
+        if k == "BreakStmt":
+            return "SBreak"
+        if k == "DoStmt" and is_zero_literal(n["inner"][1]):
+            return "(SOnce %s)" % self.stmt(n["inner"][0])
+        if k == "SwitchStmt":
+            return self.switch(n)
         if k in LOOPS:
             acc = set()
             self.assigned_vars(n, acc)
@@ -370,6 +398,64 @@ class FnTranslator:
         if k in ("CallExpr", "ImplicitCastExpr", "CStyleCastExpr", "ParenExpr"):
             return "(SExpr %s)" % self.expr(n)
         self.fail(n, "as statement")
+
+    def const_value(self, n):
+        """value of an integer constant expression (case label)"""
+        k = n.get("kind")
+        if "value" in n and k in ("ConstantExpr", "IntegerLiteral"):
+            return int(n["value"])
+        if k in ("ConstantExpr", "ParenExpr", "ImplicitCastExpr", "CStyleCastExpr"):
+            return self.const_value(n["inner"][0])
+        if k == "DeclRefExpr" and n["referencedDecl"]["kind"] == "EnumConstantDecl":
+            return self.tu.enumval[n["referencedDecl"]["name"]]
+        if k == "UnaryOperator" and n.get("opcode") in ("-", "+", "~"):
+            v = self.const_value(n["inner"][0])
+            return {"-": -v, "+": v, "~": ~v}[n["opcode"]]
+        if k == "BinaryOperator" and n.get("opcode") in ("+", "-", "*", "<<", "|", "&"):
+            a, b = (self.const_value(x) for x in n["inner"])
+            return {"+": a + b, "-": a - b, "*": a * b, "<<": a << b, "|": a | b, "&": a & b}[n["opcode"]]
+        self.fail(n, "constant expression")
+
+    def switch(self, n):
+        """switch (e) { labels and statements }: one arm per label group, each arm carrying the
+        statements from its label to the end of the switch body (fall-through written out; a
+        `break` / `return` inside ends it)"""
+        parts = [c for c in n["inner"] if "Comment" not in c.get("kind", "")]
+        if n.get("hasInit") or n.get("hasVar") or len(parts) != 2 or parts[1].get("kind") != "CompoundStmt":
+            self.fail(n, "switch shape")
+        cond, body = parts
+        t = self.tu.cty(cond["type"])
+        w = width_of(t)
+        segs = []          # [labels (ints or None for default), [stmts]]
+        def add_label(node):
+            while node.get("kind") in ("CaseStmt", "DefaultStmt"):
+                if not segs or segs[-1][1]:
+                    segs.append([[], []])
+                if node["kind"] == "CaseStmt":
+                    kids = node["inner"]
+                    if len(kids) != 2:
+                        self.fail(node, "case range")
+                    segs[-1][0].append(self.const_value(kids[0]) % (1 << w))
+                    node = kids[1]
+                else:
+                    segs[-1][0].append(None)
+                    node = node["inner"][0]
+            return node
+        for c in body.get("inner", []):
+            if c.get("kind") in ("CaseStmt", "DefaultStmt"):
+                c = add_label(c)
+            if not segs:
+                self.fail(c, "statement before the first case label")
+            segs[-1][1].append(self.stmt(c))
+        arms, dflt = [], "SSkip"
+        for i, (labels, _) in enumerate(segs):
+            run = self.seq([st for _, sts in segs[i:] for st in sts])
+            cs = [l for l in labels if l is not None]
+            if cs:
+                arms.append("([%s], %s)" % ("; ".join(str(c) for c in cs), run))
+            if None in labels:
+                dflt = run
+        return "(SSwitch %s %s\n      [%s]\n      %s)" % (t, self.expr(cond), ";\n       ".join(arms), dflt)
 
     @staticmethod
     def seq(l):
@@ -407,27 +493,45 @@ def translate_all(repo, libdir):
     wanted = set(entries) | set(legacy) | set(INLINE)
     names = Names()
     tables = {}
+    unsupported = {}
     for fips in (False, True):
         tab = {}
         for rel in FILES:
             if not os.path.exists(os.path.join(repo, rel)):
                 continue
             tu = TU(clang_ast(repo, rel, fips), rel)
-            for fname, node in tu.funcs.items():
-                if fname in wanted:
-                    if fname in tab:
-                        raise Unsupported("function %s defined twice (%s, %s)" % (fname, tab[fname]["file"], rel))
-                    ft = FnTranslator(tu, names, node)
+            todo = [(f, f) for f in tu.funcs if f in wanted]
+            done = set()
+            while todo:
+                fname, tname = todo.pop(0)          # name in the source, name in the table
+                if tname in done:
+                    continue
+                done.add(tname)
+                node = tu.funcs[fname]
+                if tname in tab:
+                    raise Unsupported("function %s defined twice (%s, %s)" % (tname, tab[tname]["file"], rel))
+                ft = FnTranslator(tu, names, node)
+                try:
                     body = ft.translate()
-                    names.fid(fname)
-                    tab[fname] = {"file": rel, "params": ft.params, "ret": ft.ret, "ret_q": ft.ret_q, "body": body,
-                                  "callees": ft.callees, "line": node.get("loc", {}).get("line", 0)}
+                except Unsupported as e:
+                    # degrade gracefully: the function is in the table with an opaque body (arbitrary
+                    # effects, unknown result), so every obligation about it fails closed
+                    unsupported.setdefault(tname, str(e))
+                    body = "(SSeq (SOpaque 99 []) (SReturn (EGlobal %s)))" % names.globid("untranslated")
+                    ft.callees, ft.static_callees = [], []
+                names.fid(tname)
+                tab[tname] = {"file": rel, "params": ft.params, "ret": ft.ret, "ret_q": ft.ret_q, "body": body,
+                              "callees": ft.callees, "line": node.get("loc", {}).get("line", 0),
+                              "static": fname in tu.statics}
+                # static helpers of the same translation unit are translated too and executed in line
+                for c in ft.static_callees:
+                    todo.append((c, static_name(rel, c)))
         missing = [e for e in entries if e not in tab]
         if missing:
             raise Unsupported("exported entry points without a translated body: %s" % missing)
         tables[fips] = tab
     names.freeze()
-    return {"names": names, "tables": tables, "entries": entries,
+    return {"names": names, "tables": tables, "entries": entries, "unsupported": unsupported,
             "legacy": [l for l in legacy if l in tables[False]], "legacy_missing": [l for l in legacy if l not in tables[False]]}
 
 
